@@ -352,6 +352,7 @@ var (
 	solverSem   = make(chan struct{}, 16)
 	cacheMu     sync.Mutex
 	queryCache  = map[string]*SolveResult{}
+	inflight    = map[string]chan struct{}{}
 	scratchDir  string
 	scratchOnce sync.Once
 	solverSeed  int
@@ -373,13 +374,17 @@ func scratch() string {
 	return scratchDir
 }
 
-func runOne(sp solverSpec, file string, timeoutMs int) (status string, out string, secs float64) {
-	solverSem <- struct{}{}
+func runOne(ctx context.Context, sp solverSpec, file string, timeoutMs int) (status string, out string, secs float64) {
+	select {
+	case solverSem <- struct{}{}:
+	case <-ctx.Done():
+		return "unknown", "cancelled", 0
+	}
 	defer func() { <-solverSem }()
-	ctx, cancel := context.WithTimeout(context.Background(), time.Duration(timeoutMs+2000)*time.Millisecond)
+	cctx, cancel := context.WithTimeout(ctx, time.Duration(timeoutMs+2000)*time.Millisecond)
 	defer cancel()
 	argv := sp.argv(file, timeoutMs, solverSeed)
-	cmd := exec.CommandContext(ctx, argv[0], argv[1:]...)
+	cmd := exec.CommandContext(cctx, argv[0], argv[1:]...)
 	var buf bytes.Buffer
 	cmd.Stdout = &buf
 	cmd.Stderr = &buf
@@ -394,15 +399,22 @@ func runOne(sp solverSpec, file string, timeoutMs int) (status string, out strin
 	default:
 		status = "unknown"
 	}
-	if strings.Contains(out, "(error") && status != "unsat" || strings.HasPrefix(first, "(error") {
+	if strings.HasPrefix(first, "(error") && ctx.Err() == nil {
 		solverErrOnce.Do(func() {
 			fmt.Fprintf(os.Stderr, "SOLVER ERROR (%s on %s): %s\n", sp.name, file, firstLine(out))
 		})
-		if strings.HasPrefix(first, "(error") {
-			status = "unknown"
-		}
+		keepFile(file)
 	}
 	return
+}
+
+var keepMu sync.Mutex
+var keptFiles = map[string]bool{}
+
+func keepFile(f string) {
+	keepMu.Lock()
+	keptFiles[f] = true
+	keepMu.Unlock()
 }
 
 // solve runs the query through the portfolio. wantModel appends (get-model).
@@ -417,7 +429,26 @@ func solve(query string, timeoutMs int, wantModel bool) *SolveResult {
 		statMu.Unlock()
 		return r
 	}
+	if ch, ok := inflight[key]; ok {
+		cacheMu.Unlock()
+		<-ch
+		cacheMu.Lock()
+		r := queryCache[key]
+		cacheMu.Unlock()
+		statMu.Lock()
+		statCached++
+		statMu.Unlock()
+		return r
+	}
+	done := make(chan struct{})
+	inflight[key] = done
 	cacheMu.Unlock()
+	defer func() {
+		cacheMu.Lock()
+		delete(inflight, key)
+		cacheMu.Unlock()
+		close(done)
+	}()
 	file := filepath.Join(scratch(), key+".smt2")
 	body := query + "(check-sat)\n"
 	if wantModel {
@@ -436,7 +467,7 @@ func solve(query string, timeoutMs int, wantModel bool) *SolveResult {
 	if short > timeoutMs {
 		short = timeoutMs
 	}
-	st, out, _ := runOne(solvers[0], file, short)
+	st, out, _ := runOne(context.Background(), solvers[0], file, short)
 	res.Detail["z3-new"] = firstLine(out)
 	if st == "unsat" || st == "sat" {
 		res.Status, res.Backend = st, "z3-new"
@@ -448,36 +479,37 @@ func solve(query string, timeoutMs int, wantModel bool) *SolveResult {
 		type r struct {
 			name, st, out string
 		}
+		ctx, cancel := context.WithCancel(context.Background())
 		ch := make(chan r, 3)
 		for _, sp := range solvers {
 			sp := sp
 			go func() {
-				st, out, _ := runOne(sp, file, timeoutMs)
+				st, out, _ := runOne(ctx, sp, file, timeoutMs)
 				ch <- r{sp.name, st, out}
 			}()
 		}
 		for i := 0; i < 3; i++ {
 			x := <-ch
-			res.Detail[x.name] = firstLine(x.out)
+			if res.Status == "unknown" || (x.st == "unsat" || x.st == "sat") {
+				if _, have := res.Detail[x.name]; !have || x.st != "unknown" {
+					res.Detail[x.name] = firstLine(x.out)
+				}
+			}
 			if res.Status == "unknown" && (x.st == "unsat" || x.st == "sat") {
 				res.Status, res.Backend = x.st, x.name
 				if x.st == "sat" {
 					res.Model = x.out
 				}
-				if x.st == "unsat" {
-					// do not wait for the others
-					go func(n int) {
-						for j := 0; j < n; j++ {
-							<-ch
-						}
-					}(2 - i)
-					break
-				}
+				cancel() // stop the others
 			}
 		}
+		cancel()
 	}
 	res.Secs = time.Since(t0).Seconds()
-	if res.Status == "unsat" {
+	keepMu.Lock()
+	kept := keptFiles[file]
+	keepMu.Unlock()
+	if !kept {
 		os.Remove(file)
 	}
 	statMu.Lock()
